@@ -915,7 +915,9 @@ def saturation_guard(ctx):
     fn = ctx.m.cls("Color", "R13.6").getters.get("saturation")
     ctx.need(fn is not None, "R13.6", "Color.saturation getter not found")
     binds = {}
-    for st in ast.walk(fn):
+    from ..flow import untuple as _untuple
+
+    for st in _untuple(list(stmts_in(fn.body))):
         if isinstance(st, ast.Assign) and len(st.targets) == 1 and isinstance(st.targets[0], ast.Name):
             binds[st.targets[0].id] = st.value
     role = {}
